@@ -235,6 +235,23 @@ func runC06(r *core.Run) {
 		c06FS(r, &c06Case{Kind: "fs", Seed: r.Seed, Idx: i, Reps: r.N(20, 60)})
 		r.Distinct(uint64(1e9) + uint64(i))
 	})
+	names := realCrashNames()
+	r.Set("real_crash_scenarios", len(names))
+	core.Parallel(len(names), workers(), func(k int) {
+		in := realCrashes()[names[k]]
+		c06PP(r, &c06Case{Kind: "pp", Input: in, Args: [][]string{{}, {"-rebase=false"}, {"-aggressive"}}[k%3], Reps: r.N(6, 20)})
+		c := &c06Case{Kind: "raw", Input: in, Reps: r.N(10, 50)}
+		base := detRun(in, stack.DefaultOpts())
+		for j := 1; j < c.Reps; j++ {
+			again := detRun(in, stack.DefaultOpts())
+			r.Eval(1)
+			if key, what := detDiff(&base, &again); key != "" {
+				r.Violation("real:"+key, "cmd/panic "+names[k]+": run "+fmt.Sprint(j)+" differs: "+what, "raw", c)
+				break
+			}
+		}
+		r.Distinct(core.Hash64(in))
+	})
 	np := r.N(48, 500)
 	core.Parallel(np, workers(), func(i int) {
 		rr := core.NewRand(r.Seed, 62, uint64(i))
@@ -255,6 +272,15 @@ func replayC06(r *core.Run, kind string, raw json.RawMessage) {
 		c.Reps = 200
 	}
 	switch kind {
+	case "raw":
+		base := detRun(c.Input, stack.DefaultOpts())
+		for j := 1; j < c.Reps; j++ {
+			again := detRun(c.Input, stack.DefaultOpts())
+			if key, what := detDiff(&base, &again); key != "" {
+				r.Violation("real:"+key, what, "raw", &c)
+				return
+			}
+		}
 	case "ties":
 		c06Ties(r, &c)
 	case "fs":
